@@ -1003,8 +1003,13 @@ func judgeValue(j *Judged, add func(Finding), site, locSuffix, locName, whereTex
 		}
 		unsaltedAt[fmt.Sprint(best)+"|"+locName] = true
 	case "salted":
-		// a correctly salted form that is nevertheless not allowed: lookup fault case
-		add(Finding{"C19:N4:" + site + ":legacy-token-forwarded-after-lookup-error" + locSuffix, best, Fmt("the remote received %q although the local lookup failed", value)})
+		// a salted form that is nevertheless not allowed
+		if t.Class == "v2" {
+			// the secret already was a 40-hex salt
+			add(Finding{"C19:N2:" + site + ":salted-twice" + locSuffix, best, Fmt("token %q with an already salted (40-hex) secret was salted again: the remote received %q", t.Str, value)})
+		} else {
+			add(Finding{"C19:N4:" + site + ":legacy-token-forwarded-after-lookup-error" + locSuffix, best, Fmt("the remote received %q although the local lookup of %q failed", value, t.Str)})
+		}
 	case "salted-twice":
 		add(Finding{"C19:N2:" + site + ":salted-twice" + locSuffix, best, Fmt("token %q with an already salted secret was salted again: the remote received %q", t.Str, value)})
 	case "salted-for-wrong-cluster":
@@ -1131,4 +1136,48 @@ func Minimise(c interface{}, idx int, f Finding, simps func(c interface{}, idx i
 		}
 	}
 	return c, f, suffix, tries
+}
+
+// ---------------------------------------------------------------- enumerated token kinds
+
+// Kinds is the list of token kinds of the exhaustively enumerated sub-space
+// (every kind x every placement combination).
+var Kinds = []string{"v2-ordinary", "v2-nonhex40", "v2-hex40-foreign", "v2-hex40-of-remote", "v2-of-remote", "v2-extra", "legacy-local", "legacy-local-fault", "legacy-remote-owned", "legacy-unknown", "opaque-jwt", "opaque-40-alnum"}
+
+// MakeTok builds a token of the given kind (contents drawn from rng).
+func MakeTok(rng *verifkit.Rand, kind, remote, home string) Tok {
+	t := Tok{Class: "v2", UUID: genUUID(rng, home, "gj3su")}
+	switch kind {
+	case "v2-ordinary":
+		t.Secret = rng.String(50, alnumLower)
+	case "v2-nonhex40":
+		t.Secret = rng.String(39, alnumLower) + "z"
+	case "v2-hex40-foreign":
+		t.Secret = rng.String(40, hexLower)
+	case "v2-hex40-of-remote":
+		t.UUID = genUUID(rng, remote, "gj3su")
+		t.Secret = rng.String(40, hexLower)
+	case "v2-of-remote":
+		t.UUID = genUUID(rng, remote, "gj3su")
+		t.Secret = rng.String(50, alnumLower)
+	case "v2-extra":
+		t.Secret = rng.String(50, alnumLower)
+		t.Extra = "/" + rng.String(8, alnumLower)
+	case "legacy-local", "legacy-local-fault":
+		s := rng.String(50, alnumLower)
+		return Tok{Class: "legacy", Str: s, Secret: s, Truth: "local", ACAUUID: genUUID(rng, home, "gj3su"), UserUUID: genUUID(rng, home, "tpzed"), Fault: kind == "legacy-local-fault"}
+	case "legacy-remote-owned":
+		s := rng.String(50, alnumLower)
+		return Tok{Class: "legacy", Str: s, Secret: s, Truth: "remote-owned", ACAUUID: genUUID(rng, remote, "gj3su"), UserUUID: genUUID(rng, remote, "tpzed")}
+	case "legacy-unknown":
+		s := rng.String(50, alnumLower)
+		return Tok{Class: "legacy", Str: s, Secret: s, Truth: "unknown"}
+	case "opaque-jwt":
+		return Tok{Class: "opaque", Str: "eyJ" + rng.String(20, alnumMixed) + "." + rng.String(40, alnumMixed) + "." + rng.String(43, alnumMixed)}
+	default: // opaque-40-alnum
+		return Tok{Class: "opaque", Str: rng.String(39, alnumLower) + "Q"}
+	}
+	t.SecKind = secKind(t.Secret)
+	t.Str = "v2/" + t.UUID + "/" + t.Secret + t.Extra
+	return t
 }
